@@ -868,6 +868,21 @@ func (c *specCtx) call(x *ast.CallExpr) specVal {
 			t = fmt.Sprintf("(to_real %s)", t)
 		}
 		return specVal{term: fmt.Sprintf("(r%s %s)", name, t), typ: tInt}
+	case "parseuint":
+		// the value strconv.ParseUint(s, base, bits) returns (an uninterpreted function of its arguments)
+		if len(args) != 3 {
+			fail("parseuint(s, base, bits) expects three arguments")
+		}
+		a, b, d := c.eval(args[0]), c.eval(args[1]), c.eval(args[2])
+		vc.declareOnceRaw("parseuint_val", "(declare-fun parseuint_val (Int Int Int) Int)")
+		return specVal{term: fmt.Sprintf("(parseuint_val %s %s %s)", a.term, b.term, d.term), typ: tInt}
+	case "parsefloat":
+		if len(args) != 2 {
+			fail("parsefloat(s, bits) expects two arguments")
+		}
+		a, b := c.eval(args[0]), c.eval(args[1])
+		vc.declareOnceRaw("parsefloat_val", "(declare-fun parsefloat_val (Int Int) Real)")
+		return specVal{term: fmt.Sprintf("(parsefloat_val %s %s)", a.term, b.term), typ: tReal}
 	case "strlen":
 		a := c.eval(args[0])
 		return specVal{term: fmt.Sprintf("(slen %s)", a.term), typ: tInt}
